@@ -92,8 +92,12 @@ class C13(Check):
                     if flat and sub != "all":
                         continue
                     out.append({"name": f"samples-{cls}-{sub}-{'flat' if flat else 'nested'}", "kind": "samples", "cls": cls, "subset": sub, "flat": flat, "N": 2, "d": 2})
-        for K in (2, 12):
+        for K in (2, 3, 12):
             out.append({"name": f"history-K{K}", "kind": "history", "K": K, "N": 1, "d": 2})
+        # one-row sample sets, and a model parameter named like a field of the class
+        out.append({"name": "samples-SMCSamples-all-nested-onerow", "kind": "samples", "cls": "SMCSamples", "subset": "all", "flat": False, "N": 1, "d": 2})
+        out.append({"name": "samples-Samples-none-nested-onerow", "kind": "samples", "cls": "Samples", "subset": "none", "flat": False, "N": 1, "d": 2})
+        out.append({"name": "samples-SMCSamples-all-nested-fieldname", "kind": "samples", "cls": "SMCSamples", "subset": "all", "flat": False, "N": 2, "d": 2, "params": ["beta", "alpha"]})
         out.append({"name": "history-no-populations", "kind": "history", "K": 0, "N": 1, "d": 2})
         for per in (False, True):
             out.append({"name": f"aspire-config-{'per' if per else 'noper'}", "kind": "config", "periodic": per, "d": d})
@@ -244,7 +248,7 @@ class C13(Check):
 
         def h(ctx):
             with numpy_is_identity():
-                s, ev = make_samples(S, cls_name, sub, N, d, sx)
+                s, ev = make_samples(S, cls_name, sub, N, d, sx, params=cfg.get("params"))
                 f = h5model.new_file()
                 try:
                     try:
@@ -271,7 +275,7 @@ class C13(Check):
             with numpy_is_identity():
                 hist = Hm.SMCHistory()
                 series = ("log_norm_ratio", "log_norm_ratio_var", "beta", "ess", "ess_target", "eff_target", "mcmc_acceptance")
-                n_it = max(K - 1, 2)
+                n_it = max(K - 1, 1)  # K = 2 populations: a single-iteration run, every series has ONE entry
                 vals = {}
                 for name in series:
                     vals[name] = [sx.sym(f"{name}_{t}") for t in range(n_it)] if name != "beta" else [(t + 1) / n_it for t in range(n_it)]
@@ -295,7 +299,11 @@ class C13(Check):
                     h5model.close_file(f)
             for name in series:
                 got = getattr(h2, name, None)
-                if not ctx.prove(got is not None and len(got) == len(vals[name]), "c13/history/series", detail={"series": name, "len": None if got is None else len(got), "saved": len(vals[name])}):
+                if isinstance(got, sx.Array) and got.ndim == 0 or not hasattr(got, "__len__"):
+                    # a series must come back as a series, also when it has one entry
+                    ctx.prove(False, "c13/history/series", detail={"series": name, "loaded": repr(got), "saved_entries": len(vals[name])})
+                    continue
+                if not ctx.prove(len(got) == len(vals[name]), "c13/history/series", detail={"series": name, "len": len(got), "saved": len(vals[name])}):
                     continue
                 for t in range(len(vals[name])):
                     a, b = vals[name][t], got[t]
@@ -403,7 +411,7 @@ def numpy_is_identity():
         S.to_numpy = real_to_numpy
 
 
-def make_samples(S, cls_name, sub, N, d, xp, rs=None):
+def make_samples(S, cls_name, sub, N, d, xp, rs=None, params=None):
     """A sample set of the given class with every cell distinct (symbolic, or random
     concrete for the replay); returns (object, planted evidence or None)."""
     sym = rs is None
@@ -415,7 +423,7 @@ def make_samples(S, cls_name, sub, N, d, xp, rs=None):
     }
     if cls_name == "SMCSamples":
         kw["beta"] = 0.25
-    s = getattr(S, cls_name)(x=mk("x", (N, d)), parameters=PARAMS[:d], xp=xp, dtype="float32", **kw)
+    s = getattr(S, cls_name)(x=mk("x", (N, d)), parameters=list(params or PARAMS[:d]), xp=xp, dtype="float32", **kw)
     ev = None
     if cls_name == "SMCSamples" or (cls_name == "Samples" and sub != "all"):
         if sym:
@@ -594,7 +602,7 @@ def _replay_samples(cfg, f, rs):
 
     bad = []
     if cfg["kind"] == "samples":
-        s, _ = make_samples(S, cfg["cls"], cfg["subset"], cfg["N"], cfg["d"], np, rs=rs)
+        s, _ = make_samples(S, cfg["cls"], cfg["subset"], cfg["N"], cfg["d"], np, rs=rs, params=cfg.get("params"))
         try:
             s.save(f, "samples", flat=cfg["flat"])
             s2 = getattr(S, cfg["cls"]).load(f, "samples")
@@ -605,7 +613,7 @@ def _replay_samples(cfg, f, rs):
         K, N, d = cfg["K"], cfg["N"], cfg["d"]
         hist = Hm.SMCHistory()
         series = ("log_norm_ratio", "log_norm_ratio_var", "beta", "ess", "ess_target", "eff_target", "mcmc_acceptance")
-        n_it = max(K - 1, 2)
+        n_it = max(K - 1, 1)  # K = 2 populations: a single-iteration run, every series has ONE entry
         for name in series:
             setattr(hist, name, [float(v) for v in rs.normal(size=n_it)] if name != "beta" else [(t + 1) / n_it for t in range(n_it)])
         pops = [S.SMCSamples(x=rs.normal(size=(N, d)), log_likelihood=rs.normal(size=N), log_prior=rs.normal(size=N), log_q=rs.normal(size=N), parameters=PARAMS[:d], beta=t / max(K - 1, 1), dtype="float32") for t in range(K)]
@@ -617,8 +625,10 @@ def _replay_samples(cfg, f, rs):
             return True, f"C13: save/load of an SMC history with {K} populations raised {type(e).__name__}: {e}"
         for name in series:
             a, b = getattr(hist, name), getattr(h2, name, None)
-            if b is None or len(a) != len(b) or not np.array_equal(np.asarray(a, float), np.asarray(b, float)):
-                bad.append(f"history series {name} changed: {list(np.asarray(b).tolist()) if b is not None else None} instead of {a}")
+            if b is None or not hasattr(b, "__len__") or np.ndim(b) == 0:
+                bad.append(f"history series {name} with {len(a)} entries reloaded as {b!r}")
+            elif len(a) != len(b) or not np.array_equal(np.asarray(a, float), np.asarray(b, float)):
+                bad.append(f"history series {name} changed: {np.asarray(b).tolist()} instead of {a}")
         if len(h2.sample_history) != K:
             bad.append(f"{len(h2.sample_history)} stored populations reloaded, {K} saved")
         else:
